@@ -352,7 +352,10 @@ func (x *Exec) makeSlice(f *frame, in *ssa.MakeSlice, g *Term) Value {
 	maxOf := func(t *Term) int {
 		cs := PossibleConsts(t)
 		if cs == nil {
-			x.fail("make([]T, n) with non-enumerable symbolic n at %s", x.pos(in.Pos()))
+			// bounded fallback with an unwinding-style obligation
+			mx := 8
+			x.oblige("unwind", x.U.And(g, x.U.Cmp(OUlt, x.U.Const(64, uint64(mx)), t)), fmt.Sprintf("make([]T, n) with n > %d", mx), in.Pos())
+			return mx
 		}
 		m := 0
 		for _, c := range cs {
@@ -450,6 +453,10 @@ func (x *Exec) indexAddr(f *frame, in *ssa.IndexAddr, g *Term) Value {
 		r := PtrV{}
 		for _, c := range x.idxCandidates(idx, s.MaxLen) {
 			for _, al := range s.Base.Alts {
+				// stay inside the backing object of this alternative
+				if o, ok := x.ObjOf(al.Addr); ok && al.Addr+(c.Addr+1)*s.Stride > o.Base+o.N {
+					continue
+				}
 				gg := u.And(c.G, al.G)
 				if !gg.IsFalse() {
 					r.Alts = append(r.Alts, PAlt{gg, al.Addr + c.Addr*s.Stride})
